@@ -26,14 +26,21 @@ partial def digitCountBig (b v : Nat) : Nat :=
 /-- number of digits the property speaks about: 1 for zero -/
 def digitCount (b : Nat) (x : Int) : Nat :=
   if x = 0 then 1
-  else if Nat.log2 x.natAbs < 200000 then (digitsOf b x.natAbs).length
+  else if Nat.log2 x.natAbs < 4096 then (digitsOf b x.natAbs).length
   else digitCountBig b x.natAbs
+
+/-- the model's mpz_sizeinbase; for operands of more than 4096 bits the bit count is taken from `Nat.log2`
+    instead of building the limb list (same value: `bitlen_bounds` in MpirProofs/Lemmas/Radix.lean) -/
+def modelSize (b : Nat) (x : Int) : Nat :=
+  if x = 0 then 1
+  else if Nat.log2 x.natAbs < 4096 then mpz_sizeinbase x b
+  else sizeinbaseBits (Nat.log2 x.natAbs + 1) b
 
 /-- verdict on an mpz_sizeinbase answer `r` for a base that is not a power of two -/
 def sizeVerdict (b : Nat) (x : Int) (r : Int) : Option String :=
   let d := digitCount b x
   if !(r == Int.ofNat d || r == Int.ofNat (d + 1)) then some s!"range:digits={d}"
-  else if r != Int.ofNat (mpz_sizeinbase x b) then some s!"model:{mpz_sizeinbase x b}"
+  else if r != Int.ofNat (modelSize b x) then some s!"model:{modelSize b x}"
   else none
 
 def handle : Handler
@@ -105,7 +112,7 @@ def pred : PredHandler
       let x : Int := Int.ofNat (b ^ n.toNat) + d
       match impl with
       | [.num r] =>
-          if pow2P b then (if r == Int.ofNat (mpz_sizeinbase x b) then some none else some (some s!"model:{mpz_sizeinbase x b}"))
+          if pow2P b then (if r == Int.ofNat (modelSize b x) then some none else some (some s!"model:{modelSize b x}"))
           else some (sizeVerdict b x r)
       | _ => some (some "output")
   | "mpz_get_str_pow_len", [.num base, .num n, .num d], impl =>
